@@ -1,4 +1,5 @@
-(* codecs/av1_packet.go: the deprecated AV1Packet.Unmarshal / parseBody, and
+(* codecs/av1_packet.go: the deprecated AV1Packet.Unmarshal / parseBody (fixed tree: the element
+   index is compared with W as an int and only when W is set, not as a wrapping byte), and
    codecs/av1/frame/av1.go: AV1.ReadFrames. *)
 From Coq Require Import ZArith List Lia Bool.
 From RTP Require Import Base.Bits Base.Res Base.ListX Model.Leb128.
@@ -14,7 +15,7 @@ Fixpoint av1p_body (fuel : nat) (w : Z) (l : list Z) (i : Z) (acc : list (list Z
     match l with
     | [] => Ok (rev acc)
     | _ =>
-      if u8 i =? w then Ok (rev (l :: acc))                     (* last element: the rest of the packet *)
+      if negb (w =? 0) && (i =? w) then Ok (rev (l :: acc))     (* W set and this is element W: the rest of the packet *)
       else
         match read_leb128 l with
         | None => Err ELeb128
